@@ -19,7 +19,7 @@
 (* PowerReduction of 1 or 2), so every truncation is the same function in   *)
 (* model and code.                                                          *)
 (***************************************************************************)
-EXTENDS Integers, Sequences, FiniteSets, TLC
+EXTENDS Integers, Sequences, FiniteSets, TLC, LockingArith
 
 CONSTANTS
   Vals,            \* validator ids 1..N, ordered like their address bytes
@@ -55,8 +55,6 @@ Absent == -1
 \*  hasAcc   SUBSET Vals                    addresses owning an auth account
 \*  err      BOOLEAN
 
-Max(a, b) == IF a > b THEN a ELSE b
-Min(a, b) == IF a < b THEN a ELSE b
 SumOver(S, F(_)) ==
   LET RECURSIVE Go(_)
       Go(T) == IF T = {} THEN 0 ELSE LET x == CHOOSE y \in T : TRUE IN F(x) + Go(T \ {x})
@@ -205,7 +203,7 @@ UnlockOne(S, u, now) ==
   IF u.t \notin Tokens \/ ~S.tokens[u.t].exists THEN Fail(S1)
   ELSE
   LET tk == S.tokens[u.t]
-      amount == Min(u.amt, vd.locking[u.t])
+      amount == UnlockAmt(u.amt, vd.locking[u.t])
       remaining == vd.locking[u.t] - amount
       exiting == vd.status \in {"Inactive", "Tombstoned"} \/ remaining < tk.threshold
       p1 == IF amount # 0 /\ tk.weight > 0 /\ ~exiting /\ vd.status \in {"Active", "Pending"}
@@ -313,7 +311,6 @@ Mature(S, now) ==
             !.unlockQ = SelectSeq(@, LAMBDA e : e.time > now)]
 
 \* -- slashing of every held token by a fraction (the whole amount if the slice truncates to zero)
-SlashAmt(a, num, den) == LET x == (a * num) \div den IN IF x = 0 THEN a ELSE x
 
 Punish(S, v, num, den, newStatus, until) ==
   LET vd == S.val[v]
